@@ -1685,6 +1685,12 @@ func (e *executor) executeRowBSIGroupShard(ctx context.Context, index string, c 
 			return NewRow(), nil
 		}
 
+		// The predicate lies beyond what the current bit depth can store,
+		// so every stored value satisfies the condition.
+		if bsig.spansAllValues(cond.Op, value) {
+			return frag.notNull()
+		}
+
 		// LT[E] and GT[E] should return all not-null if selected range fully encompasses valid bsiGroup range.
 		if (cond.Op == pql.LT && value > bsig.Max) || (cond.Op == pql.LTE && value >= bsig.Max) ||
 			(cond.Op == pql.GT && value < bsig.Min) || (cond.Op == pql.GTE && value <= bsig.Min) {
